@@ -85,7 +85,7 @@ func c03Schedule(r *vkit.Run, id string, rg *vkit.Rand, hook string) {
 	}
 	ranges := readRanges(rg)
 	feat := func(phase string) map[string]string {
-		return map[string]string{"schedule": "snapshot_parked", "a_op": "snapshot", "parked_at": hook, "b_op": "delete", "phase": phase}
+		return mismatchFeatures(map[string]string{"schedule": "snapshot_parked", "a_op": "snapshot", "parked_at": hook, "b_op": "delete", "phase": phase})
 	}
 	wit := func(phase, d string) c03Wit {
 		return c03Wit{Case: id, Setup: opStrings(setup), ParkedAt: hook, Delete: del.String(), Phase: phase, Diff: d, Files: s.TSMFiles()}
@@ -226,7 +226,7 @@ func c03BackgroundCompaction(r *vkit.Run, id string, rg *vkit.Rand) {
 	park.Release()
 	<-bDone
 	feat := func(phase string) map[string]string {
-		return map[string]string{"schedule": "background_compaction_parked", "a_op": "level_compaction", "parked_at": "tsm1.compact.afterWrite", "b_op": "delete", "phase": phase}
+		return mismatchFeatures(map[string]string{"schedule": "background_compaction_parked", "a_op": "level_compaction", "parked_at": "tsm1.compact.afterWrite", "b_op": "delete", "phase": phase})
 	}
 	wit := func(phase, d string) c03Wit {
 		return c03Wit{Case: id, Setup: opStrings(setup), ParkedAt: "tsm1.compact.afterWrite", Delete: del.String(), Phase: phase, Diff: d, Files: s.TSMFiles()}
